@@ -222,3 +222,16 @@ CLAIMS["C36"] = (
     "is exercised on number expressions only; expand_as_exp is implemented for hyperbolic functions only "
     "(NotImplementedError elsewhere is accepted)",
     "TLA+ denotational semantics + TLC trace validation")
+
+CLAIMS["C35"] = (
+    "model_checking",
+    "TLC enumerates abs/sign/floor/ceiling/conjugate/log/sqrt of 18 arguments, max/min families, nested powers "
+    "(b^k)^n over 4 bases x 10 inner x 11 outer exponents, logarithms of powers and of perfect powers, and "
+    "reciprocal trigonometric products, each under 12 assumption sets (none, real, positive, negative, nonnegative, "
+    "nonpositive, integer, positive integer, nonzero, rational, two-symbol sets) through refine and simplify (a seeded "
+    "subset in the quick tier, everything in the thorough tier); TLC validates that the result has the value of the "
+    "input at every assignment of the environment set attached to the assumption set, all of whose assignments "
+    "satisfy it",
+    "6/C35", TRUSTED + "; only assumption forms the Assumptions class understands (Contains in a number set, "
+    "comparisons of one symbol with a number) are generated",
+    "TLA+ denotational semantics + assumption-indexed environments + TLC trace validation")
